@@ -13,7 +13,7 @@ NullR == [k |-> "none", ttl |-> 0, ip |-> "", dest |-> FALSE, j |-> 0, i |-> 0]
 
 FlowOfTrace(H, snt) ==
     LET p == snt[1].p
-        acc == SelectSeq(H.hlog, LAMBDA e : e.ev = "Accept")
+        acc == SelectSeq(H.hlog, LAMBDA e : e.ev = "Accept" /\ e.lport = p.sport)
     IN [src |-> p.src, dst |-> p.dst, sport |-> p.sport, dport |-> p.dport, eid |-> p.eid, v |-> p.v,
         isn |-> IF Len(acc) > 0 THEN acc[1].isn ELSE <<0, 0>>]
 
@@ -53,13 +53,49 @@ Predict(H, snt, dl) ==
                                            rtt_us |-> dl[c[k].i].t - snt[c[k].j].t]
                                      ELSE [ttl |-> H.par.min + k - 1, addr |-> "", dest |-> FALSE, rtt_us |-> 0]]]
 
-\* does the real output agree with the prediction?
-Agrees(H, snt, dl) ==
+\* does a reported hop list agree with the prediction?
+AgreesWith(H, snt, dl, ok, hops) ==
     LET pr == Predict(H, snt, dl) IN
-    IF pr.err # "" THEN ~H.out.ok
-    ELSE /\ H.out.ok
-         /\ Len(H.out.hops) = Len(pr.hops)
+    IF pr.err # "" THEN ~ok
+    ELSE /\ ok
+         /\ Len(hops) = Len(pr.hops)
          /\ \A k \in DOMAIN pr.hops :
-               LET a == H.out.hops[k]  b == pr.hops[k] IN
+               LET a == hops[k]  b == pr.hops[k] IN
                a.ttl = b.ttl /\ a.addr = b.addr /\ a.dest = b.dest /\ a.rtt_us = b.rtt_us
+Agrees(H, snt, dl) == AgreesWith(H, snt, dl, H.out.ok, H.out.hops)
+
+(***************************************************************************)
+(* C11 (isolation): with several runs sharing one wire, every reported run *)
+(* equals what the design predicts for ONE wire run from that run's own    *)
+(* probes and the packets its capture handle read (which include every     *)
+(* other flow's replies) - i.e. the result it would produce alone.         *)
+(***************************************************************************)
+TracerouteWireRuns(H) == {w \in WireRuns(H) : ~IsE2E(H, w)}
+HopsAgree(pr, ok, hops) ==
+    IF pr.err # "" THEN ~ok
+    ELSE /\ ok /\ Len(hops) = Len(pr.hops)
+         /\ \A k \in DOMAIN pr.hops :
+               LET a == hops[k]  b == pr.hops[k] IN
+               a.ttl = b.ttl /\ a.addr = b.addr /\ a.dest = b.dest /\ a.rtt_us = b.rtt_us
+C11_run(H) ==
+    H.out.ok =>
+      LET W == WireRuns(H)
+          \* one prediction per wire run (what that run would report alone)
+          P == [w \in W |-> Predict(HRun(H, w), SentOfRun(H, w), DelOfRun(H, w))]
+          Tr == {w \in W : ~IsE2E(H, w)}
+          E == W \ Tr
+          Cand == [r \in DOMAIN H.out.runs |-> {w \in Tr : HopsAgree(P[w], TRUE, H.out.runs[r].hops)}]
+          DestRTT(w) == LET D == {k \in DOMAIN P[w].hops : P[w].hops[k].dest}
+                        IN IF P[w].err # "" \/ D = {} THEN 0 ELSE P[w].hops[CHOOSE k \in D : TRUE].rtt_us
+          ERtts == {DestRTT(w) : w \in E}
+      IN /\ \A r \in DOMAIN H.out.runs : Cand[r] # {}
+         /\ \A r1, r2 \in DOMAIN H.out.runs : (r1 # r2 /\ Cardinality(Cand[r1]) = 1) => Cand[r1] # Cand[r2]
+         \* every end-to-end sample is the destination RTT its own wire run would report alone (0 = unanswered)
+         /\ \A i \in DOMAIN H.out.rtts_us : H.out.rtts_us[i] = 0 \/ H.out.rtts_us[i] \in ERtts
+         \* identifiers handed to concurrent runs do not collide on the wire
+         /\ \A w1, w2 \in W : w1 # w2 =>
+               LET a == SentOfRun(H, w1)  b == SentOfRun(H, w2) IN
+               /\ (a[1].p.kind = "echo_req" /\ b[1].p.kind = "echo_req") => a[1].p.eid # b[1].p.eid
+               /\ (IsSynProbe(a[1].p) /\ IsSynProbe(b[1].p) /\ ~H.par.paris) =>
+                     {a[j].p.ipid : j \in DOMAIN a} \cap {b[j].p.ipid : j \in DOMAIN b} = {}
 =============================================================================
